@@ -610,7 +610,10 @@ class Complete(_Base):
                 colsk = [_msk.sha(an['spec']['noise_in'][k][:, i]) for i in range(case['N'])]
                 if len(set(colsk)) != len(colsk):
                     continue
-                plus = st['members'][::an['per']]
+                byw = {}
+                for e in st['members']:
+                    byw.setdefault(e['w'], []).append(e)
+                plus = [e for lst in byw.values() for e in lst[::an['per']]]     # a job runs +nu then -nu on one worker
                 d = [_msk.sha(np.array(e['v'])) for e in plus]
                 if len(set(d)) != len(d):
                     fs.append(Failure('members-share-noise', 'stage %d: %d distinct member inputs for %d members' % (k, len(set(d)), len(d))))
